@@ -1,9 +1,11 @@
 """C08 — laser-log synchronisation: pewlib.io.laser.read_nwi_laser_log + sync_data_nwi_laser_log against
-PewModel/Sync.lean.  The Lean specification `render` writes the abstract log rows, the sample times and
-the delay of a rastered acquisition and `truth` is its ground-truth image; the Lean mechanism `sync` is
-run on the rendered log.  Python only formats the rows as a real NWI CSV file, builds the numpy signal,
-runs pewlib and canonicalises.  Theorem `sync_render` (PewTheorems/C08.lean) proves model = spec on every
-acquisition with `truthHyp` (reported here as `hyp`); the comparison below ties the implementation to both."""
+PewModel/Sync.lean.  The Lean specification `render` writes the abstract log rows, the sample times and the delay of a
+rastered acquisition, `renderLog` writes those rows as the text of an NWI log (time stamps with the date, four-decimal
+coordinates, comma-separated fields) and `truth` is the ground-truth image; the Lean mechanism reads the text back
+(`parseLog`) and runs `sync` on it.  Python only puts the lines into a file (line terminator, BOM), builds the numpy
+signal, runs pewlib and canonicalises.  Theorems `sync_render`, `sync_render_squeeze_keeps`, `sync_render_text`
+(PewTheorems/C08.lean) prove model = spec on every acquisition with `truthHyp` and `textHyp` (reported here as `hyp`);
+the comparison below ties the implementation to both.  A case may be a HISTORY of calls in one process (see `generate`)."""
 import copy
 import datetime
 import logging
@@ -613,6 +615,9 @@ class C08(Prop):
                           nan_plan=[{"elems": [0], "what": "line", "idx": 1, "pat": None},
                                     {"elems": [2], "what": "along", "idx": 0, "pat": None},
                                     {"elems": [1], "what": "mod", "mod": 2, "rem": 1, "idx": 0, "pat": None}])
+        # a spot size string of 17 characters: replayed only once the finding is registered in known_findings.json
+        if any(k.get("id") == self.KNOWN_LONG_SPOT and k.get("kind") == "known" for k in core.load_known()):
+            yield self.simple("lr", False, 2, 3, sxu=10002500, syu=10002500)
         # HISTORY: two or three synchronisations in one process; the caller edits what each call returned in place
         a = self.simple("lr", False, 3, 4, sxu=400000, syu=400000)
         b = self.simple("rl", True, 2, 5, sxu=400000, syu=400000, X=1205000, Y=-3102500, squeeze=True, via="array")
@@ -868,8 +873,14 @@ class C08(Prop):
         if scalar:
             feats.add("clock+layout:scalar+" + ("len=size" if shape[0] == n else "len<size"))
             feats.add("samples:" + ("1" if n == 1 else "2" if n == 2 else "3+"))
+        # outside the theorems' hypotheses and not judged: no ground truth (truthHyp), or a log that leaves 1970..9999.
+        # A spot size string longer than the 16 characters the reader keeps is still "any spot size": it is judged
+        # (known finding C08-spot-size-string-over-16-characters), only the theorem does not cover it
+        undet = not rep["truth_ok"] or (not rep["text_ok"] and rep["spot_ok"])
+        if not rep["spot_ok"]:
+            feats.add("spot-string>16-characters")
         return {"impl": impl, "model": model, "spec": spec, "spec_ok": spec_ok, "model_ok": model_ok,
-                "undetermined": not rep["hyp"], "hyp": rep["hyp"], "features": feats, "relation": relation, "returned": returned}
+                "undetermined": undet, "hyp": rep["hyp"], "features": feats, "relation": relation, "returned": returned}
 
     def nan_features(self, case, rep, isnan):
         """which NaN structure the ground-truth image really has: a complete image row / column whose samples are NaN in
@@ -947,6 +958,19 @@ class C08(Prop):
         if any(p["seq"] >= 5 for p in pats):
             f.add("seq>=5")
         return f
+
+    KNOWN_LONG_SPOT = "C08-spot-size-string-over-16-characters"
+
+    def known(self, case, out):
+        """the reader keeps 16 characters of the spot size column: a longer spot size string of the pattern that is read
+        (first selected pattern of the observed call or of an earlier call of its history) loses its last digits"""
+        for step in case.get("history", []) + [case]:
+            idx = selected(step["acq"], step["sel"])
+            if idx:
+                p = step["acq"]["patterns"][idx[0]]
+                if spot_len(p["sxu"], p["syu"], p["circular"]) > 16:
+                    return self.KNOWN_LONG_SPOT
+        return None
 
     # ------------------------------------------------------------------ shrinking
     def shrink(self, case):
